@@ -72,7 +72,7 @@ func c12(r *core.Run) {
 			if !ok {
 				return
 			}
-			if _, isVS := core.FieldLoad(mu.Map, "virtualSubstitutions"); !isVS {
+			if _, _, isVS := fieldLoadBy(mu.Map, isValueValueMap); !isVS {
 				return
 			}
 			// value built from an InductionVariable's Start/Step
